@@ -257,6 +257,28 @@ def make_recording(obj, sink, batch1=False):
                 jax.debug.callback(lambda o: sink.append(np.array(o)), x[0], ordered=True)
             return super().__call__(x, *a, **k)
 
+    if hasattr(cls, "sample"):
+        # stochastic heads: record at the sample() entry point (some heads call their network
+        # directly instead of self(...)); suppress the nested __call__ record while tracing it
+        plain_call = Rec.__call__
+
+        def sample(self, observation, *a, **k):
+            if getattr(observation, "ndim", None) == 1:
+                jax.debug.callback(lambda o: sink.append(np.array(o)), observation, ordered=True)
+                self.__dict__["_rec_off"] = True
+                try:
+                    return cls.sample(self, observation, *a, **k)
+                finally:
+                    self.__dict__.pop("_rec_off", None)
+            return cls.sample(self, observation, *a, **k)
+
+        def call(self, x, *a, **k):
+            if self.__dict__.get("_rec_off"):
+                return cls.__call__(self, x, *a, **k)
+            return plain_call(self, x, *a, **k)
+
+        Rec.sample = sample
+        Rec.__call__ = call
     Rec.__name__ = cls.__name__
     Rec.__qualname__ = cls.__qualname__
     obj.__class__ = Rec
